@@ -930,5 +930,13 @@ V('C08', 'toy-distributions-kept-per-model-and-point', 'fire', 'C08.R6', 'toy di
   ('src/pyhf/infer/__init__.py', '    sig_plus_bkg_distribution, bkg_only_distribution = calc.distributions(poi_test)\n', "    if calctype == 'toybased':\n        _sampled = _toy_distributions.setdefault(pdf, {})\n        _point = (float(poi_test), calc.test_stat, calc.ntoys)\n        if _point not in _sampled:\n            _sampled[_point] = calc.distributions(poi_test)\n        sig_plus_bkg_distribution, bkg_only_distribution = _sampled[_point]\n    else:\n        sig_plus_bkg_distribution, bkg_only_distribution = calc.distributions(poi_test)\n"))
 V('C14', 'toy-distributions-through-a-local-helper', 'silent', '', 'the toy distributions fetched through a local closure (no memo)',
   ('src/pyhf/infer/__init__.py', '    sig_plus_bkg_distribution, bkg_only_distribution = calc.distributions(poi_test)\n', '    def _distributions():\n        return calc.distributions(poi_test)\n\n    sig_plus_bkg_distribution, bkg_only_distribution = _distributions()\n'))
+V('C13', 'minuit-cost-scaled-by-errordef-gradient-not', 'fire', 'C13.R6', "Minuit's cost is errordef x objective, the gradient handed over is not scaled",
+  ('src/pyhf/optimize/opt_minuit.py', '            wrapped_objective = lambda pars: objective_and_grad(pars)[0]  # noqa: E731\n            jac = lambda pars: objective_and_grad(pars)[1]  # noqa: E731\n', '            wrapped_objective = lambda pars: self.errordef * objective_and_grad(pars)[0]  # noqa: E731\n            jac = lambda pars: objective_and_grad(pars)[1]  # noqa: E731\n'))
+V('C13', 'minuit-cost-and-gradient-scaled-by-errordef', 'silent', '', "Minuit's cost and gradient are both scaled by errordef",
+  ('src/pyhf/optimize/opt_minuit.py', '            wrapped_objective = lambda pars: objective_and_grad(pars)[0]  # noqa: E731\n            jac = lambda pars: objective_and_grad(pars)[1]  # noqa: E731\n', '            wrapped_objective = lambda pars: self.errordef * objective_and_grad(pars)[0]  # noqa: E731\n            jac = lambda pars: [self.errordef * g for g in objective_and_grad(pars)[1]]  # noqa: E731\n'))
+V('C13', 'mixin-reuses-evaluation-at-close-points', 'fire', 'C13.R6', 'the last (value, gradient) pair is returned again for every point numpy.allclose to the previous one',
+  ('src/pyhf/optimize/mixins.py', '        minimizer = self._get_minimizer(\n            func,', "        if do_grad:\n            inner, last = func, {'pars': None, 'result': None}\n\n            def func(pars):\n                if last['pars'] is None or not np.allclose(pars, last['pars']):\n                    last['pars'] = np.array(pars, dtype=float)\n                    last['result'] = inner(pars)\n                return last['result']\n\n        minimizer = self._get_minimizer(\n            func,"))
+V('C13', 'mixin-reuses-evaluation-at-the-same-point', 'silent', '', 'the last (value, gradient) pair is returned again only for exactly the same point',
+  ('src/pyhf/optimize/mixins.py', '        minimizer = self._get_minimizer(\n            func,', "        if do_grad:\n            inner, last = func, {'pars': None, 'result': None}\n\n            def func(pars):\n                if last['pars'] is None or not np.array_equal(pars, last['pars']):\n                    last['pars'] = np.array(pars, dtype=float)\n                    last['result'] = inner(pars)\n                return last['result']\n\n        minimizer = self._get_minimizer(\n            func,"))
 V("C13", "code4-exponent-mask-strict", "fire", "C13.R3", "code 4 takes exponent 1 (a constant) exactly at |alpha| = alpha0",
   ("src/pyhf/interpolators/code4.py", "            exponents >= self.__alpha0, exponents, self.ones", "            exponents > self.__alpha0, exponents, self.ones"))
